@@ -88,6 +88,7 @@ fn oracle(s: &ProgScene<X>, t: &Trace) -> Vec<Violation> {
     for w in &word {
         match *w {
             W::In(Cb::Started, inc) => {
+                crate::check::oblige("protocol");
                 if !(st == St::Fresh || st == St::Stopped) {
                     v("protocol", format!("C03/{kind}/started-out-of-place"), format!("started() entered in state {st:?}"));
                 }
@@ -146,6 +147,7 @@ fn oracle(s: &ProgScene<X>, t: &Trace) -> Vec<Violation> {
     if let Some((_, cancelled)) = term {
         let failed_start_reached = s.extra.start_err.is_some_and(|n| started_per_inc.len() > n);
         if s.extra.start_err == Some(0) {
+            crate::check::oblige("start-failure");
             if word.iter().any(|w| matches!(w, W::In(cb, _) if !matches!(cb, Cb::Started))) {
                 v("start-failure", format!("C03/{kind}/callback-after-failed-start"), "a callback ran although started() returned an error".into());
             }
@@ -158,6 +160,7 @@ fn oracle(s: &ProgScene<X>, t: &Trace) -> Vec<Violation> {
                 }
             }
         } else if failed_start_reached {
+            crate::check::oblige("start-failure-on-restart");
             // a later start failed: nothing may run after it (the automaton above flags handlers
             // and stopped() in the StartFailed state), and the actor ends as failed
             if st != St::StartFailed {
@@ -171,6 +174,7 @@ fn oracle(s: &ProgScene<X>, t: &Trace) -> Vec<Violation> {
                 }
             }
         } else if !cancelled {
+            crate::check::oblige("graceful-end");
             if st != St::Stopped {
                 v("graceful-end", format!("C03/{kind}/ended-without-stopped"), format!("the actor task ended in state {st:?}"));
             }
@@ -320,6 +324,7 @@ pub fn property() -> Property {
     Property {
         id: "C03",
         cases,
+        clauses: &["protocol", "graceful-end", "start-failure", "start-failure-on-restart"],
         assumptions: &["a restart sent to a stream-attached actor cannot be expressed (Addr::restart needs RestartableActor and the stream builder is non-restartable), so it is not in the stream alphabet"],
     }
 }
